@@ -284,6 +284,10 @@ func compCases() []C05Comp {
 				out = append(out, C05Comp{c.in, c.style, c.explode, comp, nil})
 			}
 		}
+		// an array whose items are a composition: each element is read by the members that state a type
+		for _, comp := range []string{"items-allOf", "items-allOf-typeless-last", "items-allOf-typeless-first", "items-anyOf"} {
+			out = append(out, C05Comp{c.in, c.style, c.explode, comp, []any{int64(7), int64(8), int64(9)}})
+		}
 		if c.style == "form" || c.style == "simple" || c.style == "label" {
 			out = append(out, C05Comp{c.in, c.style, c.explode, "allOf", int64(5)})
 			// a member that only constrains (no type) does not say how the text is read: the other member does
@@ -304,6 +308,14 @@ func runComp(c *C05Comp) (sig, detail string) {
 		s = openapi3.NewOneOfSchema(other, arr)
 	case "anyOf":
 		s = openapi3.NewAnyOfSchema(arr, other)
+	case "items-allOf":
+		s = openapi3.NewArraySchema().WithItems(openapi3.NewAllOfSchema(openapi3.NewIntegerSchema(), openapi3.NewIntegerSchema().WithMin(1)))
+	case "items-allOf-typeless-last":
+		s = openapi3.NewArraySchema().WithItems(openapi3.NewAllOfSchema(openapi3.NewIntegerSchema(), openapi3.NewSchema().WithMin(1)))
+	case "items-allOf-typeless-first":
+		s = openapi3.NewArraySchema().WithItems(openapi3.NewAllOfSchema(openapi3.NewSchema().WithMin(1), openapi3.NewIntegerSchema()))
+	case "items-anyOf":
+		s = openapi3.NewArraySchema().WithItems(openapi3.NewAnyOfSchema(openapi3.NewIntegerSchema(), openapi3.NewBoolSchema()))
 	case "allOf-typeless-last":
 		s = openapi3.NewAllOfSchema(openapi3.NewIntegerSchema(), openapi3.NewSchema().WithMin(1))
 	case "allOf-typeless-first":
